@@ -118,7 +118,7 @@ def rtu_task_pass(ctx):
 
 
 def run(ctx):
-    if not srv.prepare(ctx):
+    if not srv.prepare(ctx, ['ReaderLoop.v']):
         return
     if ctx.replay and 'stream_cases' in ctx.replay:
         srv.replay_streams(ctx)
